@@ -162,7 +162,7 @@ class C06Signals(Machine):
         t0 = rng.pick([0.0, -20e-9, 100e-9, 1e-6])
         w = {k: 0.2 + rng.random() for k in
              ("new", "shift", "scale", "filter", "set_buffers", "resample",
-              "with_times", "add", "copy", "assign_times", "bad_buffers")}
+              "with_times", "add", "copy", "assign_times", "bad_buffers", "aug_times")}
         w["new"] *= 0.5
         return {"n_steps": rng.pick([4, 6, 10, 15, 25]), "n": n, "dt": dt, "t0": t0,
                 "read_prob": rng.pick([0.3, 0.5, 0.7]), "weights": w,
@@ -209,7 +209,8 @@ class C06Signals(Machine):
             return {"op": "read", "i": i, "what": rng.pick(["values", "values", "spectrum", "envelope"])}
         w = cfg["weights"]
         choices = [(k, w[k]) for k in ("shift", "scale", "filter", "set_buffers", "resample",
-                                       "with_times", "add", "copy", "assign_times", "bad_buffers")]
+                                       "with_times", "add", "copy", "assign_times", "bad_buffers",
+                                       "aug_times")]
         if len(self.subjects) < MAX_SUBJECTS:
             choices.append(("new", w["new"]))
         k = rng.weighted(choices)
@@ -252,6 +253,8 @@ class C06Signals(Machine):
                     "with_new": self._rand_fn(rng) if rng.chance(0.5) else None}
         if k == "copy":
             return {"op": "copy", "i": i}
+        if k == "aug_times":
+            return {"op": "aug_times", "i": i, "k": rng.pick([1, -1, 3, 0.5, 7])}
         if k == "assign_times":
             return {"op": "assign_times", "i": i, "off": rng.pick([0, 1, -2, 0.5, 16]),
                     "n": rng.pick([cfg["n"], cfg["n"] // 2, cfg["n"] + 3])}
@@ -341,10 +344,17 @@ class C06Signals(Machine):
             return obj, "ok"
         if name == "copy":
             return obj.copy(), "ok"
+        if name == "aug_times":
+            # augmented assignment to the documented attribute (rebinding the same array)
+            t = np.asarray(obj.times, dtype=float)
+            obj.times += d["k"] * (t[1] - t[0])
+            return obj, "ok"
         if name == "add":
             other = live_other if live_other is not None else self._build(d["other_defs"])
-            # bring the operand onto this object's grid first
-            other = other.with_times(np.array(obj.times))
+            # bring the operand onto this object's grid first (the operand itself
+            # is used when it already is on that grid)
+            if not (len(other.times) == len(obj.times) and np.array_equal(other.times, obj.times)):
+                other = other.with_times(np.array(obj.times))
             return obj + other, "ok"
         raise AssertionError(name)
 
@@ -409,6 +419,8 @@ class C06Signals(Machine):
             m.times = m.times[0] + step * (np.arange(d["n"]) + d["off"])
         elif name == "copy":
             m = m.clone()
+        elif name == "aug_times":
+            m.times = m.times + d["k"] * (m.times[1] - m.times[0])
         elif name == "add":
             om = d.get("other_model")
             if om is None:
@@ -470,7 +482,7 @@ class C06Signals(Machine):
                 live_other = other.obj
                 d["other_model"] = other.model.clone() if other.model is not None else None
             d["other_defs"] = other_defs
-        if name in ("with_times", "assign_times", "resample") and len(subj.obj.times) < 2:
+        if name in ("with_times", "assign_times", "resample", "aug_times") and len(subj.obj.times) < 2:
             raise Skip("grid too short")
         if name == "resample" and op["n"] < 2:
             raise Skip("resample needs >= 2 points")
@@ -701,6 +713,10 @@ class C06Tracers(Machine):
         if self.path is not None:
             choices += ["path_set", "path_set"]
         k = rng.pick(choices)
+        if k in ("set_from", "set_to") and rng.chance(0.35):
+            # augmented assignment: tracer.to_point += delta (rebinds the same array object)
+            return {"op": "set", "attr": "from_point" if k == "set_from" else "to_point", "aug": True,
+                    "value": [float(rng.randint(-40, 40)), float(rng.randint(-40, 40)), float(rng.randint(-15, 15))]}
         if k == "set_from":
             return {"op": "set", "attr": "from_point", "value": self._rand_point(rng, deep=True)}
         if k == "set_to":
@@ -818,7 +834,17 @@ class C06Tracers(Machine):
                 real = vec(value)
             else:
                 real = value
-            st, _ = self.sut(setattr, self.tracer, attr, real, where="setattr " + attr)
+            if op.get("aug"):
+                def aug():
+                    if attr == "from_point":
+                        self.tracer.from_point += real
+                    else:
+                        self.tracer.to_point += real
+                st, _ = self.sut(aug, where="augmented assignment " + attr)
+                value = [float(a + b) for a, b in zip(self.attrs[attr], value)]
+                self.count("probe.augmented_assignment")
+            else:
+                st, _ = self.sut(setattr, self.tracer, attr, real, where="setattr " + attr)
             self.attrs[attr] = value
             if attr == "max_reflections":
                 self.count("probe.max_reflections_assigned")
